@@ -1,11 +1,15 @@
 pub mod common;
 pub mod c01;
+pub mod c02;
+pub mod c03;
 
 use crate::report::Run;
 
 pub fn dispatch(run: &Run) -> bool {
     match run.opts.prop.as_str() {
         "C01" => c01::run(run),
+        "C02" => c02::run(run),
+        "C03" => c03::run(run),
         _ => return false,
     }
     true
